@@ -35,6 +35,11 @@ func (x *Exec) VerifyFunc(key string, fc *FuncContract) (err error) {
 	var lit *ast.FuncLit
 	var litOuter *ast.FuncDecl
 	if decl == nil {
+		if im := x.ifaceMethod(pkg, fc.Name); im != nil {
+			return x.checkImplementations(key, fc, pkg, im)
+		}
+	}
+	if decl == nil {
 		// closure: "Outer$n"
 		if i := strings.Index(fc.Name, "$"); i > 0 {
 			litOuter, _ = x.L.findFunc(pkg, fc.Name[:i])
@@ -81,7 +86,7 @@ func (x *Exec) VerifyFunc(key string, fc *FuncContract) (err error) {
 	st := &State{vars: map[types.Object]Value{}, boxed: map[types.Object]PtrV{}, heap: map[string]*Term{}, ghost: map[string]Value{}}
 	st.now = Var("now0", SInt)
 	st.assumeRaw(Gt(st.now, IntLit(1_000_000_000)))
-	st.ghost["jsize"] = IntV{Var("jsize0", SInt)}
+	x.initGhostInts(st)
 	st.alloc = Var("alloc0", ArrOf(SBool))
 
 	var body *ast.BlockStmt
@@ -162,6 +167,34 @@ func (x *Exec) VerifyFunc(key string, fc *FuncContract) (err error) {
 		if g == "holds shard" {
 			st.held = append(st.held, heldLock{ID: Var("callerlock", SInt), Level: 1, Write: true, Desc: "elem:held-by-caller"})
 		}
+	}
+	if fc.Implements != "" && x.C.Funcs["fnfield:"+fc.Implements] == nil {
+		// a method implementing an interface method under contract: "implements Cache.Get"
+		ifc := x.C.Funcs[fc.Pkg+"."+fc.Implements]
+		if ifc == nil {
+			return fmt.Errorf("%s: implements unknown contract %s", key, fc.Implements)
+		}
+		im := x.ifaceMethod(pkg, fc.Implements)
+		if im == nil {
+			return fmt.Errorf("%s: %s is not an interface method of %s", key, fc.Implements, fc.Pkg)
+		}
+		isig := im.Type().(*types.Signature)
+		i := 0
+		for _, f := range ftype.Params.List {
+			for _, n := range f.Names {
+				if i < isig.Params().Len() {
+					ctx.Params[isig.Params().At(i).Name()] = ctx.Params[n.Name]
+				}
+				i++
+			}
+		}
+		fc.Requires = append(append([]Clause{}, fc.Requires...), ifc.Requires...)
+		fc.Ensures = append(append([]Clause{}, fc.Ensures...), ifc.Ensures...)
+		if len(fc.Assigns) == 0 && !fc.Pure {
+			fc.Assigns = ifc.Assigns // the implementation stays within the interface method's frame
+		}
+		fc.Implements = ""
+		x.Trusted["interface contract "+ifc.Name+": every implementation in the module is verified against it (implements)"] = true
 	}
 	if fc.Implements != "" {
 		if ff := x.C.Funcs["fnfield:"+fc.Implements]; ff != nil {
@@ -250,6 +283,9 @@ func (x *Exec) atReturn(fr *Frame, st *State, ctx *FuncCtx, sig *types.Signature
 	} else if len(ctx.Contract.Assigns) > 0 {
 		x.assignsFrame(fr, st, ctx)
 	}
+	if ctx.Contract.Pure || len(ctx.Contract.Assigns) > 0 {
+		x.ghostFrame(fr, st, ctx)
+	}
 	x.onFuncExit(fr, st, ctx, env)
 	// canary: this return must be reachable under the contract's assumptions
 	x.Obls = append(x.Obls, &Obligation{Func: ctx.Name, Kind: "canary", Label: "return", Name: ctx.Name + "#canary:return",
@@ -329,7 +365,7 @@ func (x *Exec) pureFrame(fr *Frame, st *State, ctx *FuncCtx) {
 func (x *Exec) assignsFrame(fr *Frame, st *State, ctx *FuncCtx) {
 	matches := func(key string) bool {
 		for _, a := range ctx.Contract.Assigns {
-			if strings.HasPrefix(a, "ghost:") || a == "nothing" {
+			if strings.HasPrefix(a, "ghost:") || a == "nothing" || strings.HasPrefix(a, "new:") || strings.Contains(a, "@") {
 				continue
 			}
 			if strings.Contains(key, a) {
@@ -346,6 +382,18 @@ func (x *Exec) assignsFrame(fr *Frame, st *State, ctx *FuncCtx) {
 		// frame of loops is checked per iteration (syntactic scan of the body): see loopFrame
 		return
 	}
+	// one-object patterns "T@param": keys matching T may change at the entry value of param only
+	onlyAt := func(key string) []*Term {
+		var out []*Term
+		for _, a := range ctx.Contract.Assigns {
+			if i := strings.Index(a, "@"); i > 0 && !strings.HasPrefix(a, "ghost:") && strings.Contains(key, a[:i]) {
+				if ad, ok := x.frameObj(x.entrySpecEnv(ctx), a[i+1:]); ok {
+					out = append(out, ad)
+				}
+			}
+		}
+		return out
+	}
 	for _, key := range st.heapKeys() {
 		if matches(key) {
 			continue
@@ -357,7 +405,89 @@ func (x *Exec) assignsFrame(fr *Frame, st *State, ctx *FuncCtx) {
 		init := Var("H0_"+sanitize(key), cur.Sort)
 		x.quantN++
 		a := Var(fmt.Sprintf("qa_%d", x.quantN), SInt)
-		goal := Forall([]*Term{a}, Implies(Select(Var("alloc0", ArrOf(SBool)), a), Eq(Select(cur, a), Select(init, a))))
+		conds := []*Term{Select(Var("alloc0", ArrOf(SBool)), a)}
+		for _, ex := range onlyAt(key) {
+			conds = append(conds, Ne(a, ex))
+		}
+		goal := Forall([]*Term{a}, Implies(And(conds...), Eq(Select(cur, a), Select(init, a))))
 		x.oblige(fr, st, "frame", "assigns/"+key, goal, nil)
 	}
+}
+
+// ifaceMethod finds "Iface.Method" in a package.
+func (x *Exec) ifaceMethod(pkg *pkgT, name string) *types.Func {
+	parts := strings.SplitN(name, ".", 2)
+	if len(parts) != 2 {
+		return nil
+	}
+	obj := pkg.Types.Scope().Lookup(parts[0])
+	if obj == nil {
+		return nil
+	}
+	it, ok := obj.Type().Underlying().(*types.Interface)
+	if !ok {
+		return nil
+	}
+	for i := 0; i < it.NumMethods(); i++ {
+		if it.Method(i).Name() == parts[1] {
+			return it.Method(i)
+		}
+	}
+	return nil
+}
+
+// checkImplementations: a contract on an interface method is used at calls through the
+// interface; it is sound only if every type of the module that implements the interface
+// has its method verified against it.  One obligation per implementing type.
+func (x *Exec) checkImplementations(key string, fc *FuncContract, pkg *pkgT, im *types.Func) error {
+	parts := strings.SplitN(fc.Name, ".", 2)
+	iobj := pkg.Types.Scope().Lookup(parts[0])
+	iface := iobj.Type().Underlying().(*types.Interface)
+	ctxName := shortPkg(fc.Pkg) + "." + fc.Name
+	found := 0
+	for path, p := range x.L.Pkgs {
+		if !inModule(path) || p.Types == nil {
+			continue
+		}
+		scope := p.Types.Scope()
+		for _, n := range scope.Names() {
+			tn, ok := scope.Lookup(n).(*types.TypeName)
+			if !ok || tn.IsAlias() {
+				continue
+			}
+			named, ok := tn.Type().(*types.Named)
+			if !ok {
+				continue
+			}
+			if _, isI := named.Underlying().(*types.Interface); isI {
+				continue
+			}
+			// generic types: compare method names and arity (instantiation-independent)
+			ms := types.NewMethodSet(types.NewPointer(named))
+			all := true
+			for i := 0; i < iface.NumMethods(); i++ {
+				if ms.Lookup(iface.Method(i).Pkg(), iface.Method(i).Name()) == nil {
+					all = false
+					break
+				}
+			}
+			if !all {
+				continue
+			}
+			if strings.HasSuffix(p.PkgPath, "_test") {
+				continue
+			}
+			found++
+			ik := path + "." + n + "." + parts[1]
+			ic := x.C.Funcs[ik]
+			ok2 := ic != nil && ic.ImplDecl == fc.Name && !ic.Assumed
+			x.Obls = append(x.Obls, &Obligation{Func: ctxName, Kind: "implements", Label: shortPkg(path) + "." + n, Name: ctxName + "#implements:" + shortPkg(path) + "." + n,
+				Goal: BoolLit(ok2), Props: fc.Props, Pos: fc.File})
+		}
+	}
+	if found == 0 {
+		return fmt.Errorf("%s: no implementation of the interface found in the module", key)
+	}
+	x.FuncsDone = append(x.FuncsDone, ctxName+" (interface contract)")
+	return nil
 }
